@@ -55,7 +55,7 @@ func (vfs *MemFS) Base(path string) string {
 func (vfs *MemFS) Chdir(dir string) error {
 	const op = "chdir"
 
-	_, child, pi, err := vfs.searchNode(dir, slmLstat)
+	_, child, pi, err := vfs.searchNode(dir, slmEval)
 	if err != vfs.err.FileExists {
 		return &fs.PathError{Op: op, Path: dir, Err: err}
 	}
